@@ -98,6 +98,19 @@ def rule_thread_marker(repo, chk):
             p = Q.escapes(g, [st], lambda n: n in others, exits=('exit', 'raise'), weak=True)
             chk.ob('h', f.ref, 'the previous marker is restored on every exit, also an exceptional one', p is None and bool(others), loc(f, st.ast),
                    path=pat.path_lines(p, st) if p else None, discr=f'marker-restored:{qual.split(".")[1]}')
+        # … restored, not cleared: the routine is re-entered (a handler calls flush() or tick()), and when the inner call returns the outer one is still dispatching
+        for o in others:
+            vals = [v for r, a, v in pat.attr_store(o.ast) if r == 'self' and a == mk]
+            okv = bool(vals)
+            for v in vals:
+                if not isinstance(v, ast.Name):
+                    okv = False
+                    continue
+                ds = Q.reaching_defs(g, o, v.id)
+                okv = okv and bool(ds) and all(d.kind == 'stmt' and isinstance(d.ast, ast.Assign) and src(d.ast.value) == f'self.{mk}' and
+                                               all(Q.reachable_without(g, s2, avoid_node=lambda n, d=d: n is d) is None for s2 in sets) for d in ds)
+            chk.ob('h', f.ref, 'what is put back into the marker on exit is the value read before it was set (a nested flush()/tick() of a handler must leave the outer '
+                               'one marked)', okv, loc(f, o.ast), detail=f'`{src(o.ast)}`', discr=f'marker-previous:{qual.split(".")[1]}')
     need(n_sites >= 2, f'C05.h: {n_sites} handler-running sites, 2 confirmed by hand')
     # tick() may be called from inside a step of a generator handler (directly, through stop() in a hand-driven loop, through a flush the step makes): stepping that very
     # generator again raises "generator already executing", which the stepper books as the handler having finished
